@@ -112,12 +112,19 @@ def run_property(prop, tier="quick", seed=0, no_cache=False, repo=None, facts_di
     try:
         mod = importlib.import_module("rules." + prop)
         mod.run(ctx)
-        # positive controls: the same rule code must fire on the fixture crate
+        # engine-level positive controls (every property): each analysis primitive must separate bad_* from good_* fixtures
+        cfacts = controls_facts()
+        if cfacts is None:
+            print("CHECK-BROKEN: positive-control fixture facts unavailable", file=out)
+            return 2
+        from . import selfcheck
+        n_ctl, ctl_fails = selfcheck.run(*cfacts)
+        ctx.notes.append({"engine_controls": n_ctl, "engine_control_failures": ctl_fails})
+        if ctl_fails:
+            print("CHECK-BROKEN: engine positive control(s) failed: %s" % "; ".join(ctl_fails), file=out)
+            return 2
+        # rule-level positive controls: the same rule code must fire on the fixture crate
         if hasattr(mod, "controls"):
-            cfacts = controls_facts()
-            if cfacts is None:
-                print("CHECK-BROKEN: positive-control fixture facts unavailable", file=out)
-                return 2
             CF, CG = cfacts
             cctx = Ctx(prop + ".controls", CF, CG, tier, seed, "fixtures", False)
             silent = mod.controls(cctx)
